@@ -214,7 +214,128 @@ theorem gen_attack (o : NumOps α) (a d : α) (s : Arg α) (n : Nat) :
       cases o.trunc (o.add a o.half) <;> cases o.trunc (o.add d o.half) <;> try rfl
       cases o.isZero a <;> cases o.isZero d <;> simp
 
+/-! ### `ones` / `zeros` / `impulse`: the optional duration, the fall-through `while True` -/
+
+theorem gen_const_some (o : NumOps α) (v d : α) (n : Nat) :
+    (if (o.isInf d && o.lt o.zero d) = true then takeRun n (List.replicate n v)
+      else runPre (o.trunc (o.add o.half d)) fun t0 => takeRun n (rangeG t0 n (fun (_ : Nat) => v)))
+    = constG o v (some d) n := by
+  simp only [constG, endlessG, runPre, takeRun, rangeG]
+  by_cases h : (o.isInf d && o.lt o.zero d) = true
+  · simp [h]
+  · simp only [h]
+    cases o.trunc (o.add o.half d) with
+    | error x => rfl
+    | ok k => simp [map_const_range, Nat.min_comm]
+
+theorem gen_ones (o : NumOps α) (dur : Option α) (n : Nat) :
+    ALV.Gen.C19.ones o dur n = constG o o.one dur n := by
+  rcases dur with _ | d
+  · simp [ALV.Gen.C19.ones, constG, takeRun]
+  · simp only [ALV.Gen.C19.ones, gen_const_some]
+
+theorem gen_zeros (o : NumOps α) (dur : Option α) (n : Nat) :
+    ALV.Gen.C19.zeros o dur n = constG o o.zero dur n := by
+  rcases dur with _ | d
+  · simp [ALV.Gen.C19.zeros, constG, takeRun]
+  · simp only [ALV.Gen.C19.zeros, gen_const_some]
+
+theorem take_cons_replicate {β : Type} (a b : β) (n : Nat) :
+    List.take n ([a] ++ List.replicate n b) = List.take n (a :: List.replicate (n - 1) b) := by
+  cases n with
+  | zero => rfl
+  | succ k => simp [List.take_replicate]
+
+theorem gen_impulse {β : Type} (o : NumOps α) (dur : Option α) (one zero : β) (n : Nat) :
+    ALV.Gen.C19.impulse o dur one zero n = impulseG o dur one zero n := by
+  rcases dur with _ | d
+  · simp only [ALV.Gen.C19.impulse, impulseG, takeRun, take_cons_replicate]
+  · simp only [ALV.Gen.C19.impulse, impulseG, endlessG, runPre, takeRun, rangeG, take_cons_replicate]
+    by_cases h : (o.isInf d && o.lt o.zero d) = true
+    · simp only [h, if_true]
+    · simp only [h]
+      by_cases h2 : o.le o.half d = true
+      · simp only [h2, if_true]
+        cases o.trunc (o.sub d o.half) with
+        | error x => rfl
+        | ok k => simp [map_const_range]
+      · simp [h2]
+
+theorem gen_sinusoid {β : Type} (o : NumOps α) (sin : α → β) (twoPi : α) (freq phase : Arg α) (n : Nat) :
+    ALV.Gen.C19.sinusoid o sin twoPi freq phase n = sinusoidNow o sin twoPi freq phase n := by
+  simp only [ALV.Gen.C19.sinusoid, sinusoidNow, gen_modulo_counter]
+
+/-! ### `TableLookup.__call__` -/
+
+theorem gen_table_sample (o : NumOps α) (tbl : List α) (idx : α) :
+    (bindE (o.trunc idx) fun t0 =>
+     bindE (indexG tbl t0) fun t1 =>
+     bindE (o.trunc idx) fun t2 =>
+     bindE (o.ceil idx) fun t3 =>
+     bindE (indexG tbl (t3 - (tbl.length : Int))) fun t4 =>
+     bindE (o.trunc idx) fun t5 =>
+     (.ok (o.add (o.mul t1 (o.sub o.one (o.sub idx (o.ofInt t2)))) (o.mul t4 (o.sub idx (o.ofInt t5))))
+       : Except String α))
+    = lookupAtNow o tbl idx := by
+  unfold lookupAtNow
+  cases h : o.trunc idx with
+  | error x => rfl
+  | ok i =>
+    simp only [bindE, indexG]
+    cases pyIndex tbl i with
+    | none => rfl
+    | some x =>
+      simp only []
+      cases o.ceil idx with
+      | error e => rfl
+      | ok c =>
+        simp only []
+        cases pyIndex tbl (c - (tbl.length : Int)) <;> rfl
+
+theorem gen_table_call (o : NumOps α) (tbl : List α) (den : α) (freq phase : Arg α) (n : Nat) :
+    ALV.Gen.C19.table_call o tbl den freq phase n = tableCallNow o tbl den freq phase n := by
+  simp only [ALV.Gen.C19.table_call, tableCallNow, gen_modulo_counter, mapRunG, gen_table_sample]
+
+theorem gen_table_getitem (o : NumOps α) (floor : α → Except String Int) (tbl : List α) (idx : α) :
+    ALV.Gen.C19.table_getitem o floor tbl idx = getItemNow o floor tbl idx := by
+  simp only [ALV.Gen.C19.table_getitem, getItemNow, bindE, indexG, intModG]
+  cases floor idx with
+  | error e => rfl
+  | ok left =>
+    simp only []
+    by_cases hL : (tbl.length : Int) = 0
+    · simp only [hL, if_true]
+    · simp only [hL, if_false]
+      cases pyIndex tbl (left.fmod (tbl.length : Int)) with
+      | none => rfl
+      | some x =>
+        simp only []
+        cases o.ceil idx with
+        | error e => rfl
+        | ok c =>
+          simp only []
+          cases pyIndex tbl (c.fmod (tbl.length : Int)) <;> rfl
+
+/-- where `ceil` raises nothing when `int()` raises nothing (exact numbers; binary64), Python's order of
+    evaluation and the order of `lookupAtG` give the same sample or the same exception -/
+theorem lookupAtNow_eq_G (o : NumOps α) (tbl : List α) (idx : α)
+    (hc : ∀ i, o.trunc idx = .ok i → ∃ c, o.ceil idx = .ok c) :
+    lookupAtNow o tbl idx = lookupAtG o tbl idx := by
+  unfold lookupAtNow lookupAtG
+  cases h : o.trunc idx with
+  | error x => cases o.ceil idx <;> rfl
+  | ok i =>
+    obtain ⟨c, hc'⟩ := hc i h
+    simp only [hc']
+    cases pyIndex tbl i <;> cases pyIndex tbl (c - (tbl.length : Int)) <;> rfl
+
+theorem mapRun_congr {β : Type} (f g : α → Except String β) (h : ∀ x, f x = g x) (xs : List α) (e : Option String) :
+    mapRun f xs e = mapRun g xs e := by
+  have : f = g := funext h
+  rw [this]
+
 /-! ### today's code against the models of the code before the repairs D28 / D23 -/
+
 
 /-- where `int(modulo / step)` raises nothing (every exact number type; binary64 unless the quotient
     overflows), today's `modulo_counter` is `mcG` -/
@@ -237,5 +358,15 @@ theorem mcNow_overflow_plain (o : NumOps α) (a m s : α) (n : Nat) (e : String)
     (hs : o.isZero s = false) (he : o.trunc (o.div m s) = .error e) :
     mcNow o (.num a) (.num m) (.num s) n = gN o m s n a := by
   simp [mcNow, hs, stepsNow, he]
+
+/-- today's `TableLookup.__call__` is `tableCallG` where `int(modulo / step)` raises nothing and `ceil` raises
+    nothing when `int()` raises nothing -/
+theorem tableCallNow_eq_G (o : NumOps α) (tbl : List α) (den : α) (freq phase : Arg α) (n : Nat)
+    (hc : ∀ idx i, o.trunc idx = .ok i → ∃ c, o.ceil idx = .ok c)
+    (hm : ∀ m s, o.isZero s = false → ∃ k, o.trunc (o.div m s) = .ok k) :
+    tableCallNow o tbl den freq phase n = (tableCallG o tbl den freq phase n).1 := by
+  simp only [tableCallNow, tableCallG]
+  rw [mcNow_eq_mcG o _ _ _ n (fun m s _ _ h0 => hm m s h0)]
+  exact mapRun_congr _ _ (fun idx => lookupAtNow_eq_G o tbl idx (hc idx)) _ _
 
 end ALV.C19
